@@ -7,7 +7,8 @@ same; the rules read branches.  So the loader undoes that step, exactly:
                                                                                   or bound once to a module / class / local name)
   getattr(x, "name")                    ->  x.name
   setattr(x, "name", v)                 ->  x.name = v
-  (lambda a, b: E)(x, y)                ->  E[a:=x, b:=y]                        (arguments that are plain names / attributes)
+  (lambda a, b: E)(x, y)                ->  E[a:=x, b:=y]                        (arguments that are plain names / attributes; also through a
+                                                                                  local bound once to the lambda and only ever called)
   {False: a, True: b}[<boolean test>]   ->  b if <test> else a
   (f if c else g)(a…)  as a statement   ->  if c: f(a…) else: g(a…)              (also  h = f if c else g; h(a…)  with h used once)
 
@@ -180,6 +181,10 @@ def _boolean(e):
         return True
     if isinstance(e, ast.Call) and isinstance(e.func, ast.Name) and e.func.id in ("isinstance", "bool", "callable", "hasattr", "issubclass"):
         return True
+    if isinstance(e, ast.Call) and isinstance(e.func, ast.Attribute) and e.func.attr in (
+            "startswith", "endswith", "isalpha", "isdigit", "isalnum", "isupper", "islower", "isspace", "isidentifier", "is_leaf", "issubset", "issuperset",
+            "isdisjoint"):
+        return True  # predicates of str / set (and of the IR) that answer True or False
     if isinstance(e, ast.BoolOp):
         return all(_boolean(v) for v in e.values)
     if isinstance(e, ast.Constant):
@@ -444,6 +449,10 @@ class _Fold(ast.NodeTransformer):
 
     def visit_Subscript(self, n):
         self.generic_visit(n)
+        # (a, b, c)[1]  ->  b      (a row of a table substituted for the name that stood for it)
+        if isinstance(n.ctx, ast.Load) and isinstance(n.value, (ast.Tuple, ast.List)) and isinstance(n.slice, ast.Constant) and isinstance(n.slice.value, int) \
+                and not isinstance(n.slice.value, bool) and -len(n.value.elts) <= n.slice.value < len(n.value.elts) and all(_pure(x) for x in n.value.elts):
+            return ast.copy_location(copy_tree(n.value.elts[n.slice.value]), n)
         if isinstance(n.ctx, ast.Load) and _boolean(n.slice):
             d = n.value
             if self.tables is not None and isinstance(d, (ast.Name, ast.Attribute)):
@@ -504,6 +513,8 @@ def unroll(tree, nodes=None):
                 choice = True
         elif isinstance(x, ast.Dict) and len(x.keys) == 2 and all(isinstance(k, ast.Constant) and isinstance(k.value, bool) for k in x.keys):
             fold = choice = True
+    if any(isinstance(x, ast.Assign) and isinstance(x.value, ast.Lambda) for x in nodes) and _apply_local_lambdas(tree):
+        fold = True
     if not (has_for or fold or choice):
         return tree, 0
     tables = _Tables(tree, nodes)
@@ -515,14 +526,18 @@ def unroll(tree, nodes=None):
             for x in nodes)):
         tree = u.visit(tree)
     dispatch = any(isinstance(x, ast.Call) and isinstance(x.func, ast.Attribute) and x.func.attr == "get" for x in nodes) and \
-        (tables.module or tables.cls) and _dict_get_dispatch(tree, tables)
+        any(isinstance(x, ast.Dict) and x.keys for x in nodes) and _dict_get_dispatch(tree, tables)
+    if any(isinstance(x, ast.Call) and isinstance(x.func, ast.Name) and x.func.id == "next" and x.args and isinstance(x.args[0], ast.GeneratorExp) for x in nodes):
+        dispatch = _next_dispatch(tree, tables) or dispatch
     if u.count or fold or dispatch:
         tree = _Fold(tables).visit(tree)
         ast.fix_missing_locations(tree)
         choice = True
+        # x = A if c else B produced by the folds above: a statement again
+        _split_ifexp_assign(tree)
         # constants picked by a branch and used reflectively further down: read the continuation once per choice
         for fn in ast.walk(tree):
-            if isinstance(fn, (ast.FunctionDef, ast.AsyncFunctionDef)) and _reflective_use(fn.body, None):
+            if isinstance(fn, (ast.FunctionDef, ast.AsyncFunctionDef)) and (_reflective_use(fn.body, None) or _has_row_binding(fn.body)):
                 fn.body = _fold_constant_tests(specialise(fn.body)) or fn.body
         ast.fix_missing_locations(tree)
     if choice:
@@ -533,46 +548,216 @@ def unroll(tree, nodes=None):
 
 def _dict_get_dispatch(tree, tables):
     """x = TABLE.get(k[, d])  with TABLE a constant dict   ->   if k == K1: x = V1 elif k == K2: x = V2 … else: x = d
-    (keys and values side-effect-free expressions; what a dict lookup does for keys with ordinary equality)"""
+    (keys and values side-effect-free expressions; what a dict lookup does for keys with ordinary equality; a key expression that is
+    not a plain name is evaluated once into a local first)"""
     changed = [False]
+    counter = [0]
 
-    def rewrite(st):
+    def rewrite(st, local):
         if not (isinstance(st, ast.Assign) and len(st.targets) == 1 and isinstance(st.targets[0], ast.Name) and isinstance(st.value, ast.Call)):
             return None
         c = st.value
-        if not (isinstance(c.func, ast.Attribute) and c.func.attr == "get" and 1 <= len(c.args) <= 2 and not c.keywords and _simple(c.args[0])):
+        if not (isinstance(c.func, ast.Attribute) and c.func.attr == "get" and 1 <= len(c.args) <= 2 and not c.keywords):
             return None
-        d = tables.resolve(c.func.value, {}) if isinstance(c.func.value, (ast.Name, ast.Attribute)) else c.func.value
+        d = tables.resolve(c.func.value, local) if isinstance(c.func.value, (ast.Name, ast.Attribute)) else c.func.value
         if not (isinstance(d, ast.Dict) and d.keys and len(d.keys) <= MAX_ROWS and all(k is not None and _simple(k) for k in d.keys) and all(_pure(v) for v in d.values)):
             return None
         default = c.args[1] if len(c.args) == 2 else ast.Constant(value=None)
         if not _pure(default):
             return None
+        pre = []
+        key = c.args[0]
+        if not _simple(key):
+            counter[0] += 1
+            kname = "key__d%d" % counter[0]
+            pre = [ast.copy_location(ast.Assign(targets=[ast.Name(id=kname, ctx=ast.Store())], value=key), st)]
+            key = ast.copy_location(ast.Name(id=kname, ctx=ast.Load()), key)
 
         def asg(v):
             return ast.copy_location(ast.Assign(targets=[copy_tree(st.targets[0])], value=copy_tree(v)), st)
         node = [asg(default)]
         for k, v in reversed(list(zip(d.keys, d.values))):
-            test = ast.Compare(left=copy_tree(c.args[0]), ops=[ast.Eq()], comparators=[copy_tree(k)])
+            test = ast.Compare(left=copy_tree(key), ops=[ast.Eq()], comparators=[copy_tree(k)])
             node = [ast.copy_location(ast.If(test=test, body=[asg(v)], orelse=node), st)]
+        for x in pre + node:
+            ast.fix_missing_locations(x)
+        changed[0] = True
+        return pre + node
+
+    def block(stmts, local):
+        i = 0
+        while i < len(stmts):
+            st = stmts[i]
+            if isinstance(st, (ast.FunctionDef, ast.AsyncFunctionDef)):
+                block(st.body, _LazyLocal(st))
+                i += 1
+                continue
+            r = rewrite(st, local)
+            if r is not None:
+                stmts[i:i + 1] = r
+                i += len(r)
+                continue
+            for fld in ("body", "orelse", "finalbody"):
+                sub = getattr(st, fld, None)
+                if isinstance(sub, list) and sub and isinstance(sub[0], ast.stmt):
+                    block(sub, local)
+            for h in getattr(st, "handlers", []) or []:
+                block(h.body, local)
+            i += 1
+    block(tree.body, {})
+    return changed[0]
+
+
+def _next_dispatch(tree, tables):
+    """x = next((E for <targets> in TABLE if C), D)  with TABLE a constant table   ->   if C[row 1]: x = E[row 1] elif C[row 2]: … else: x = D
+    (first matching row wins, as the generator would have it; without a default the else branch raises StopIteration as next() does)"""
+    changed = [False]
+
+    def rewrite(st, local):
+        if not (isinstance(st, (ast.Assign, ast.Return)) and isinstance(st.value, ast.Call) and isinstance(st.value.func, ast.Name) and st.value.func.id == "next"
+                and 1 <= len(st.value.args) <= 2 and not st.value.keywords and isinstance(st.value.args[0], ast.GeneratorExp)):
+            return None
+        if isinstance(st, ast.Assign) and not (len(st.targets) == 1 and (isinstance(st.targets[0], ast.Name) or (
+                isinstance(st.targets[0], ast.Tuple) and all(isinstance(t, ast.Name) for t in st.targets[0].elts)))):
+            return None
+        g = st.value.args[0]
+        if len(g.generators) != 1 or g.generators[0].is_async:
+            return None
+        comp = g.generators[0]
+        rows = tables.rows(comp.iter, local)
+        if rows is None:
+            return None
+        binds = []
+        for r in rows:
+            m = {}
+            if not tables.bind(comp.target, r, local, m):
+                return None
+            binds.append(m)
+        default = st.value.args[1] if len(st.value.args) == 2 else None
+        if default is not None and not _pure(default):
+            return None
+
+        def out(v):
+            if isinstance(st, ast.Return):
+                return ast.copy_location(ast.Return(value=v), st)
+            return ast.copy_location(ast.Assign(targets=[copy_tree(st.targets[0])], value=v), st)
+        if default is None:
+            node = [ast.copy_location(ast.Raise(exc=ast.Call(func=ast.Name(id="StopIteration", ctx=ast.Load()), args=[], keywords=[]), cause=None), st)]
+        else:
+            node = [out(copy_tree(default))]
+        for m in reversed(binds):
+            conds = [_Sub(m).visit(copy_tree(c)) for c in comp.ifs]
+            val = _Sub(m).visit(copy_tree(g.elt))
+            if not conds:
+                node = [out(val)]
+                continue
+            test = conds[0] if len(conds) == 1 else ast.BoolOp(op=ast.And(), values=conds)
+            node = [ast.copy_location(ast.If(test=test, body=[out(val)], orelse=node), st)]
         ast.fix_missing_locations(node[0])
         changed[0] = True
         return node[0]
 
-    def block(stmts):
+    def block(stmts, local):
         for i, st in enumerate(stmts):
-            r = rewrite(st)
+            if isinstance(st, (ast.FunctionDef, ast.AsyncFunctionDef)):
+                block(st.body, _LazyLocal(st))
+                continue
+            r = rewrite(st, local)
             if r is not None:
                 stmts[i] = r
                 continue
             for fld in ("body", "orelse", "finalbody"):
                 sub = getattr(st, fld, None)
                 if isinstance(sub, list) and sub and isinstance(sub[0], ast.stmt):
+                    block(sub, local)
+            for h in getattr(st, "handlers", []) or []:
+                block(h.body, local)
+    block(tree.body, {})
+    return changed[0]
+
+
+def _apply_local_lambdas(tree):
+    """f = lambda a: E   (a local bound once, only ever called)   …   f(x)   ->   E[a:=x]"""
+    changed = False
+    for fn in ast.walk(tree):
+        if not isinstance(fn, (ast.FunctionDef, ast.AsyncFunctionDef)):
+            continue
+        lam = {}
+        stores = {}
+        for x in ast.walk(fn):
+            if isinstance(x, ast.Name) and isinstance(x.ctx, (ast.Store, ast.Del)):
+                stores[x.id] = stores.get(x.id, 0) + 1
+        for st in ast.walk(fn):
+            if isinstance(st, ast.Assign) and len(st.targets) == 1 and isinstance(st.targets[0], ast.Name) and isinstance(st.value, ast.Lambda) \
+                    and stores.get(st.targets[0].id) == 1:
+                a = st.value.args
+                if not (a.vararg or a.kwarg or a.kwonlyargs or a.defaults or a.posonlyargs):
+                    lam[st.targets[0].id] = st.value
+        if not lam:
+            continue
+        # only when every use of the name is a call of it
+        calls = {id(c.func) for c in ast.walk(fn) if isinstance(c, ast.Call) and isinstance(c.func, ast.Name) and c.func.id in lam}
+        for nm in list(lam):
+            if any(isinstance(x, ast.Name) and x.id == nm and isinstance(x.ctx, ast.Load) and id(x) not in calls for x in ast.walk(fn)):
+                del lam[nm]
+        if not lam:
+            continue
+
+        class T(ast.NodeTransformer):
+            def visit_Call(self, n):
+                self.generic_visit(n)
+                if isinstance(n.func, ast.Name) and n.func.id in lam and not n.keywords and len(n.args) == len(lam[n.func.id].args.args):
+                    n.func = ast.copy_location(copy_tree(lam[n.func.id]), n.func)
+                return n
+        T().visit(fn)
+        changed = True
+    return changed
+
+
+def _split_ifexp_assign(tree):
+    def block(stmts):
+        for i, st in enumerate(stmts):
+            if isinstance(st, ast.Assign) and len(st.targets) == 1 and isinstance(st.value, ast.IfExp):
+                a = ast.copy_location(ast.Assign(targets=[st.targets[0]], value=st.value.body), st)
+                b = ast.copy_location(ast.Assign(targets=[copy_tree(st.targets[0])], value=st.value.orelse), st)
+                stmts[i] = ast.copy_location(ast.If(test=st.value.test, body=[a], orelse=[b]), st)
+                continue
+            for fld in ("body", "orelse", "finalbody"):
+                sub = getattr(st, fld, None)
+                if isinstance(sub, list) and sub and isinstance(sub[0], ast.stmt) and not isinstance(st, ast.ClassDef):
                     block(sub)
             for h in getattr(st, "handlers", []) or []:
                 block(h.body)
-    block(tree.body)
-    return changed[0]
+            if isinstance(st, ast.ClassDef):
+                for x in st.body:
+                    if isinstance(x, (ast.FunctionDef, ast.AsyncFunctionDef)):
+                        block(x.body)
+    for st in tree.body:
+        if isinstance(st, (ast.FunctionDef, ast.AsyncFunctionDef)):
+            block(st.body)
+        elif isinstance(st, ast.ClassDef):
+            block([st])
+
+
+def _const_truth(e):
+    """True / False when the test is decided by literals alone: `<literal> is [not] None`, a literal, `not <such>`; else None"""
+    if isinstance(e, ast.Constant):
+        return bool(e.value)
+    if isinstance(e, (ast.Tuple, ast.List, ast.Dict)) and not isinstance(getattr(e, "ctx", None), ast.Store):
+        return bool(e.elts) if not isinstance(e, ast.Dict) else bool(e.keys)
+    if isinstance(e, ast.UnaryOp) and isinstance(e.op, ast.Not):
+        t = _const_truth(e.operand)
+        return None if t is None else (not t)
+    if isinstance(e, ast.Compare) and len(e.ops) == 1 and isinstance(e.ops[0], (ast.Is, ast.IsNot)) and isinstance(e.comparators[0], ast.Constant) \
+            and e.comparators[0].value is None and isinstance(e.left, (ast.Constant, ast.Tuple, ast.List, ast.Dict)):
+        is_none = isinstance(e.left, ast.Constant) and e.left.value is None
+        return is_none if isinstance(e.ops[0], ast.Is) else not is_none
+    return None
+
+
+def _side_effect_free(e):
+    return all(isinstance(x, (ast.Name, ast.Attribute, ast.Constant, ast.Compare, ast.BoolOp, ast.UnaryOp, ast.Load, ast.cmpop, ast.boolop, ast.unaryop,
+                              ast.Subscript, ast.Tuple)) for x in ast.walk(e))
 
 
 def _fold_constant_tests(stmts):
@@ -583,11 +768,32 @@ def _fold_constant_tests(stmts):
             sub = getattr(st, fld, None)
             if isinstance(sub, list) and sub and isinstance(sub[0], ast.stmt) and not isinstance(st, (ast.FunctionDef, ast.AsyncFunctionDef, ast.ClassDef)):
                 setattr(st, fld, _fold_constant_tests(sub) or [ast.copy_location(ast.Pass(), st)])
-        if isinstance(st, ast.If) and isinstance(st.test, ast.Compare) and len(st.test.ops) == 1 and isinstance(st.test.ops[0], (ast.Is, ast.IsNot)) \
-                and isinstance(st.test.comparators[0], ast.Constant) and st.test.comparators[0].value is None \
-                and isinstance(st.test.left, (ast.Constant, ast.Tuple, ast.List, ast.Dict)):
-            is_none = isinstance(st.test.left, ast.Constant) and st.test.left.value is None
-            truth = is_none if isinstance(st.test.ops[0], ast.Is) else not is_none
+        truth = _const_truth(st.test) if isinstance(st, ast.If) else None
+        if isinstance(st, ast.If) and truth is None and isinstance(st.test, ast.BoolOp):
+            # literal operands of and / or: dropped when neutral, decisive otherwise (only ahead of the first non-literal operand,
+            # or when every later operand is side-effect free — names, attributes, comparisons of those)
+            vals = list(st.test.values)
+            is_and = isinstance(st.test.op, ast.And)
+            kept = []
+            decided = None
+            for v in vals:
+                tv = _const_truth(v)
+                if tv is None:
+                    kept.append(v)
+                elif tv is (not is_and):
+                    if not kept or all(_side_effect_free(k) for k in kept):
+                        decided = tv
+                        break
+                    kept.append(v)
+                # a neutral literal (True in `and`, False in `or`) is dropped
+            if decided is not None:
+                truth = decided
+            elif len(kept) < len(vals):
+                if not kept:
+                    truth = is_and
+                else:
+                    st.test = kept[0] if len(kept) == 1 else ast.copy_location(ast.BoolOp(op=st.test.op, values=kept), st.test)
+        if isinstance(st, ast.If) and truth is not None:
             out.extend(st.body if truth else st.orelse)
             if out and isinstance(out[-1], (ast.Return, ast.Raise, ast.Continue, ast.Break)):
                 return out  # what followed the folded test in this block can no longer be reached
@@ -687,6 +893,24 @@ def _leaves(st):
     return out
 
 
+def _strategy(m, st):
+    """the constants bound are parameters of behaviour rather than plain data: a row of a table unpacked into several names, a
+    compiled pattern, a function"""
+    vals = list(m.values())
+    if any(isinstance(v, ast.Lambda) or (isinstance(v, ast.Call) and isinstance(v.func, ast.Attribute) and v.func.attr == "compile") for v in vals):
+        return True
+    return len(vals) >= 3  # a table row spread over three or more names
+
+
+def _has_row_binding(stmts):
+    for s_ in stmts:
+        for x in ast.walk(s_):
+            if isinstance(x, ast.Assign) and len(x.targets) == 1 and isinstance(x.targets[0], ast.Tuple) and len(x.targets[0].elts) >= 3 \
+                    and isinstance(x.value, (ast.Tuple, ast.List)) and len(x.value.elts) == len(x.targets[0].elts):
+                return True
+    return False
+
+
 def _reflective_use(stmts, names):
     """a name (one of `names`; any name when names is None) is used as the attribute name of getattr/setattr/hasattr — or, for given
     names, as the callee"""
@@ -711,6 +935,10 @@ def _reflective_use(stmts, names):
                     return True
                 if names is not None and isinstance(x.func, ast.Name) and x.func.id in names:
                     return True
+    if names is None:
+        # a local that is called: f = <one of several functions>; f(…)
+        stored = {x.id for s_ in stmts for x in ast.walk(s_) if isinstance(x, ast.Name) and isinstance(x.ctx, ast.Store)}
+        return any(isinstance(x, ast.Call) and isinstance(x.func, ast.Name) and x.func.id in stored for s_ in stmts for x in ast.walk(s_))
     return False
 
 
@@ -738,7 +966,7 @@ def specialise(stmts, depth=0):
             if dicts:
                 star = {id(kw.value) for s_ in rest for c_ in ast.walk(s_) if isinstance(c_, ast.Call) for kw in c_.keywords if kw.arg is None}
                 star_only = all(id(x) in star for s_ in rest for x in ast.walk(s_) if isinstance(x, ast.Name) and x.id in dicts)
-            if not rebound and not captured and star_only and _reflective_use(rest, names0):
+            if not rebound and not captured and star_only and (_reflective_use(rest, names0) or _strategy(m0, st)):
                 cont = [_Fold().visit(_Sub(m0).visit(copy_tree(s_))) for s_ in rest]
                 for s_ in cont:
                     ast.fix_missing_locations(s_)
@@ -776,7 +1004,8 @@ def specialise(stmts, depth=0):
                 rebound = any(isinstance(x, ast.Name) and x.id in names and not isinstance(x.ctx, ast.Load) for s_ in rest for x in ast.walk(s_))
                 captured = any(isinstance(x, (ast.FunctionDef, ast.Lambda)) and any(isinstance(z, ast.Name) and z.id in names for z in ast.walk(x))
                                for s_ in rest for x in ast.walk(s_))
-                if not rebound and not captured and _reflective_use(rest, names) and _count(rest) * len(live) <= MAX_STMTS:
+                strategic = all(_strategy(m, None) for m in live)
+                if not rebound and not captured and (_reflective_use(rest, names) or strategic) and _count(rest) * len(live) <= MAX_STMTS:
                     for (blk, owner, fld), m in zip(leaves, binds):
                         if m:
                             cont = [_Sub(m).visit(copy_tree(s_)) for s_ in rest]
